@@ -228,6 +228,9 @@ pub struct LogicalOpts {
     /// (concat, with `concat_leave_out`) the left-out pack files stay beside the one-file edition,
     /// under names the manifest does not record
     pub keep_left_out: bool,
+    /// (BasicCreator) the output files of the extra content packs are named relative to the
+    /// process's working directory (which the caller has set to an ancestor of the destination)
+    pub extra_pack_paths_relative_to_cwd: bool,
     /// (loose / concat) a second content pack with the id of pack 1 is listed after the others: an
     /// "alternative" (the format allows several packs per id; the one declared first wins)
     pub alternative_of_pack1: bool,
@@ -1177,7 +1180,11 @@ fn build_inner(
                     continue;
                 }
                 extra_slot.insert(p, extras.len());
-                let path = dir.join(format!("{name}.x{p}.jbkc"));
+                let mut path = dir.join(format!("{name}.x{p}.jbkc"));
+                if logical.opts.extra_pack_paths_relative_to_cwd {
+                    let cwd = std::env::current_dir()?;
+                    path = path.strip_prefix(&cwd).map_err(|_| "the working directory is not an ancestor of the destination")?.to_path_buf();
+                }
                 let file: Box<dyn creator::PackRecipient> = creator::AtomicOutFile::new(utf8(&path))?;
                 extras.push(creator::ContentPackCreator::new_from_output_with_progress(
                     file,
